@@ -5,10 +5,24 @@
      c08_link_arity : link succeeds iff the template exists, exactly its slots are bound
        (c08_binding_exact characterises check_binding) and the new id is unused;
      c08_link_effect_annotations_partial : effect / annotations of a link are its template's.
-   NOT proved (kept by correspondence + implementation-level oracle only, see notes/C08.md):
-     WF preservation over histories, refinement to the abstract map, link = substitution for
-     evaluation, merge properties. *)
-From Cedar Require Import PolicySet PolicySetProofs.
+     c08_wf_step (API level, every operation except merge) / c08_history_partial (every merge-free
+       history from the empty set): the invariant WFapi = core WF (templates stored under their id;
+       every link stored under its id, its template present, exactly the template's slots bound, static
+       iff slot-less template; no id both template and template-linked policy; every slot-less template
+       is a present static policy; template_to_links = exactly the inverse image) + API maps =
+       projection of the core maps.  `_partial`: merge is not covered (not proved).
+     c08_wf_step_core : the same for ast::PolicySet under the VISIBLE precondition core_ok (no slot-less
+       template added as template, no link to a slot-less template, no re-add of a template-linked
+       policy object, no merge); c08_wf_refuted_without_it : without it the faithful model loses the
+       invariant (witness add_static s; link s->n; remove_static s — replays on ast::PolicySet, and
+       through PolicySet::from_json_value on the public API, see notes/C08.md).
+     c08_link_subst_partial : for every request, store, template, binding and link id, evaluating the
+       linked policy (slot environment of Eval.v) = evaluating the static policy obtained by writing the
+       bound entity in place of each slot (subst_slots); unbound slots give ErrUnlinkedSlot on both sides.
+       `_partial`: the hypothesis body_closed (the when/unless body evaluates independently of the slot
+       environment — the parser rejects slots there) is semantic, not derived from a syntactic check.
+   NOT proved: refinement to the abstract map as a separate statement, merge properties. *)
+From Cedar Require Import PolicySet PolicySetProofs PolicySetWF PolicySetSubst.
 
 Theorem c08_fail_noop_api : forall h o h' e r, api_step h o = (h', (OErr e, r)) -> h' = h.
 Proof. exact api_step_fail_noop. Qed.
@@ -36,6 +50,47 @@ Theorem c08_link_effect_annotations_partial : forall t new env,
 Proof. exact link_effect_annotations. Qed.
 Print Assumptions c08_link_effect_annotations_partial.
 
+Theorem c08_wf_step : forall h o h' r,
+  Hinv h -> no_merge o -> api_step h o = (h', r) -> Hinv h'.
+Proof. exact api_step_Hinv. Qed.
+Print Assumptions c08_wf_step.
+
+Theorem c08_history_partial : forall ops,
+  Forall no_merge ops -> Hinv (run_ops api_step ops empty_h).
+Proof. intros ops F. exact (api_history_Hinv ops empty_h Hinv_empty F). Qed.
+Print Assumptions c08_history_partial.
+
+Theorem c08_wf_step_core : forall h o h' r,
+  CoreInv h -> core_ok h o -> ast_step h o = (h', r) -> CoreInv h'.
+Proof. exact ast_step_CoreInv. Qed.
+Print Assumptions c08_wf_step_core.
+
+Theorem c08_wf_refuted_without_it :
+  exists ops, ~ WF (a_ast (h_api (run_ops ast_step ops empty_h))).
+Proof. exists wit_ops. exact core_WF_refuted. Qed.
+Print Assumptions c08_wf_refuted_without_it.
+
+Theorem c08_link_subst_partial : forall q es t env i,
+  body_closed q es t ->
+  eval_policy q es (mkPolicy t (Some i) env) = eval_policy q es (static_of (subst_slots env t)).
+Proof. exact link_subst. Qed.
+Print Assumptions c08_link_subst_partial.
+
+(* consequences of the invariant, in the property's words *)
+Theorem c08_no_shared_id : forall s i p t, WF s ->
+  alookup i (ps_links s) = Some p -> alookup i (ps_templates s) = Some t -> plink p = None /\ t = ptemplate p.
+Proof.
+  intros s i p t W HL HT. assert (Hs : plink p = None) by (eapply wf_disj; eauto; congruence).
+  split; [exact Hs|]. destruct (wf_link _ W _ _ HL) as [Hpid [B _]].
+  rewrite (static_pid _ Hs) in Hpid. rewrite Hpid in B. congruence.
+Qed.
+Print Assumptions c08_no_shared_id.
+
+Theorem c08_link_has_template : forall s i p, WF s ->
+  alookup i (ps_links s) = Some p -> alookup (tid (ptemplate p)) (ps_templates s) = Some (ptemplate p).
+Proof. intros s i p W H. exact (proj1 (proj2 (wf_link _ W _ _ H))). Qed.
+Print Assumptions c08_link_has_template.
+
 (* non-vacuity: a link with exactly the template's slot succeeds, one with a missing slot fails *)
 Definition ex_t : template := mkTemplate [116%N] [] Permit (CEq RefSlot) AAny CAny None.
 Definition ex_u : uid := mkUid [[85%N]] [97%N].
@@ -45,6 +100,11 @@ Proof. eexists. eexists. split; vm_compute; reflexivity. Qed.
 Example ex_link_arity :
   exists s1, ps_add_template empty_pset ex_t = OOk s1 /\ ps_link s1 [116%N] [108%N] [] = OErr EArity.
 Proof. eexists. split; vm_compute; reflexivity. Qed.
+Example ex_history : Hinv (run_ops api_step
+  [OpAddTemplate ex_t; OpLink [116%N] [108%N] [(SlotPrincipal, ex_u)]; OpUnlink [108%N]; OpRemoveTemplate [116%N]] empty_h).
+Proof. apply c08_history_partial. repeat constructor. Qed.
+Example ex_body_closed : forall q es, body_closed q es ex_t.
+Proof. intros q es sl e H. discriminate H. Qed.
 Example ex_fail_noop :
   api_step empty_h (OpUnlink [120%N]) = (empty_h, (OErr ELinkNonexistent, [])).
 Proof. vm_compute. reflexivity. Qed.
